@@ -762,13 +762,16 @@ def oracle_consumer(cfg, kind, ks):
     return ",".join(out)
 
 
-def consumer_program(cfg, kind, ks, default_funcs):
+def consumer_program(cfg, kind, ks, default_funcs, j=""):
+    """the program text of one case; `j` suffixes every name so that several cases share one program"""
     fn = "with_count" if kind == "wc" else "distinct"
-    args = "" if default_funcs else "h, e"
     lits = ", ".join(str(k) if k < 2 ** 63 else f"({k % 2**64} + {k >> 64} * 2**64)" for k in ks)
-    return ((("" if default_funcs else cfg.prelude())) +
-            f"let g = [{lits}].to_generator().{fn}({args});\n"
-            "let r1 = g.to_array();\nlet r2 = g.to_array();\nlet rl = g.len();\n")
+    pre = ""
+    if not default_funcs:
+        pre = re.sub(r"\b(h|e)\b", lambda m: m.group(1) + str(j), "".join(cfg.prelude().splitlines(True)[:2]))
+    args = "" if default_funcs else f"h{j}, e{j}"
+    return (pre + f"let g{j} = [{lits}].to_generator().{fn}({args});\n"
+            f"let r1{j} = g{j}.to_array();\nlet r2{j} = g{j}.to_array();\nlet rl{j} = g{j}.len();\n")
 
 
 def consumer_cell(v, kind):
@@ -798,9 +801,31 @@ def run_consumers(chk, n_cases, max_len):
         else:
             cfg = gen_cfg(rng)
             cases.append((cfg, rng.choice(["wc", "wc", "ds"]), gen_stream(rng, cfg, max_len), False))
-    reqs = [{"op": "map", "src": consumer_program(cfg, kind, ks, d), "get": ["r1", "r2", "rl"]} for cfg, kind, ks, d in cases]
     mlines = [f"map crun {cfg.args()} {kind} " + ",".join(map(str, ks)) for cfg, kind, ks, d in cases]
-    resps = run_harness(reqs, per_req_timeout=30.0)
+    # several cases per program (compiling the standard library dominates the cost of a request); a program that
+    # does not run to completion is re-run one case at a time
+    B = 8
+    groups = [list(range(i, min(i + B, len(cases)))) for i in range(0, len(cases), B)]
+
+    def req_of(idx):
+        return {"op": "map", "src": "".join(consumer_program(*cases[i], j=f"_{i}") for i in idx),
+                "get": [f"{n}_{i}" for i in idx for n in ("r1", "r2", "rl")]}
+
+    def ran(r):
+        return not ("panic" in r or "abort" in r or "hang" in r) and r.get("compile") == "ok" and r.get("inst") == "ok"
+    gres = run_harness([req_of(g) for g in groups], per_req_timeout=30.0)
+    resps = [None] * len(cases)
+    singles = []
+    for g, r in zip(groups, gres):
+        if ran(r):
+            for i in g:
+                resps[i] = {"compile": "ok", "inst": "ok", "vals": {n: r["vals"][f"{n}_{i}"] for n in ("r1", "r2", "rl")}}
+        else:
+            singles += g
+    for i, r in zip(singles, run_harness([req_of([i]) for i in singles], per_req_timeout=30.0)):
+        if ran(r):
+            r = {"compile": "ok", "inst": "ok", "vals": {n: r["vals"][f"{n}_{i}"] for n in ("r1", "r2", "rl")}}
+        resps[i] = r
     mouts = run_model(mlines)
     for (cfg, kind, ks, dflt), resp, ml, mo in zip(cases, resps, mlines, mouts):
         chk.evaluations += 1
